@@ -253,6 +253,7 @@ static void ex_run(const plan *p)
     baton_begin(sched, pct);
     baton_set_cores((uint32_t)nworkers);
     experiment_running = true;
+    libstate_snapshot();
     cimba_run_experiment(arr, (uint64_t)ntrials, esz, trial_fn);
     experiment_running = false;
     const int active_at_return = active;
@@ -263,6 +264,12 @@ static void ex_run(const plan *p)
     baton_end();
     _mm_setcsr(csr0);
 
+    {   /* trials must be isolated: no worker may have written library state that is shared between threads */
+        size_t off = 0;
+        const char *m = libstate_changed(&off);
+        if (m) viol("C19", "shared-library-state-written", "static non-thread-local storage of %s (offset %zu) changed while the trials ran: trials on different workers share it", m, off);
+        if (libstate_ranges() > 0) PROBE("exp.library_static_state_compared");
+    }
     if (active_at_return != 0 || undone != 0)
         viol("C19", "returned-early", "cimba_run_experiment returned while %d trial calls were still running and %d trials had not begun", active_at_return, undone);
     for (int i = 0; i < ntrials; i++)
